@@ -142,3 +142,6 @@ func verifVoteTuple(t kproto.SignedMsgType, h uint64, r uint32, id BlockID, ts t
 	pid := id.ToProto()
 	return verifSignTuple(verifChain, t, h, r, pid.Hash, id.PartsHeader.Total, pid.PartSetHeader.Hash, ts)
 }
+
+// Stub for time.Now where the code under test only stamps objects with it.
+func verifStubNow() time.Time { return verifTS }
